@@ -4,7 +4,12 @@ Correspondence: the real front gate (TwistedServer.datagramReceived; _UdpServer.
 same text and is compared separately on the unit srv_gate) + the real UdpServerThread, stepped
 deterministically, against Server.v (same machinery as C10) under hostile traffic.
 Oracle (implementation only): loop-thread liveness, the honest echo client's service, per-address
-byte counters at the mock socket, no reaction whatsoever to block-listed IPs."""
+byte counters at the mock socket, no reaction whatsoever to block-listed IPs.
+Worlds run behind every front door of the library in turn (harness/srvx.py: TwistedServer.datagramReceived with a
+fresh thread, the thread TwistedServer / ThreadedServer build in their constructor, the socket loop of _UdpServer.run
+on a scripted socket) and with the context configured before or after the server object was built.
+halfopen_world: peers that hold a session key but never complete the handshake, over many seconds (byte AND datagram
+accounting per address that never got a connect event)."""
 import struct
 from harness import lib
 from harness import connsim as S
@@ -17,6 +22,12 @@ RULE = ("byte strings up to RECV_SIZE (and beyond) from many addresses through t
         "hello-typed plaintext with count != 1 or inner APP/DISCONNECT/CHALLENGE messages, spoofed source addresses of "
         "established clients, replays, sources with port 0 and block-listed IPs — interleaved with 1-2 honest echo clients; "
         "non-trivial = a world in which the honest client exchanged >= 5 echoes while >= 4 hostile kinds were fed")
+HALFOPEN_RULE = ("half-open worlds: up to 5 hostile peers per world that do the key exchange with a real UdpClient (they HOLD the session key of "
+                 "their temporary slot) and then answer the challenge with a wrong token / token 0 / another connection's token / garbage / APP, "
+                 "KEEP_ALIVE or DISCONNECT messages in a CHALLENGE_RESP-typed datagram, or not at all, and repeat the wrong answer every 0.3-1.9 s "
+                 "for 11-22 s of virtual time next to an honest echo client, behind every front door; per address that never got a connect event: "
+                 "bytes out <= bytes in and datagrams out <= client hellos in, at every tick; non-trivial = world with >= 5 echoes and >= 5 wrong answers. "
+                 "The random hostile worlds above also rotate over the front doors and over configure-before / configure-after-construction (setBlockList)")
 ASSUMPTIONS = ["virtual clock on the 1/1024 s grid",
                "the mock socket behaves like the OS measured on this host: sendto to port 0 raises OSError(EINVAL) (checked each run by srvsim.os_refuses_port0)",
                "|server hello datagram| <= |minimal accepted client hello datagram|, both measured from the implementation each run and asserted"]
@@ -196,7 +207,10 @@ def world(run, rng, idx, sizes, hello):
     facts = set()
     policy = V.random_policy(rng, p_raise=0.0, echo=1.0, chatty=False)
     cfg = rng.choice([(5 * T, 2 * T, 1536, T), (15360, 7680, 1536, 7680)])
-    w = V.World(run, rng, cfg=cfg, blocklist=BLOCKED, policy=policy, full=True)
+    from harness import srvx as X
+    front = X.FRONTS[idx % len(X.FRONTS)]       # every front door of the library in turn (srvx.py); "twisted" is srvsim's own
+    w = X.WorldX(run, rng, cfg=cfg, blocklist=BLOCKED, policy=policy, full=True, front=front,
+                 configure="between" if (idx // len(X.FRONTS)) % 2 else "before")
     sim = w.sim
     honest = [w.add_client(("10.1.0.%d" % (i + 1), 5000 + i)) for i in range(rng.choice([1, 2]))]
     sent, nsteps = {id(r): [] for r in honest}, rng.randrange(60, 120) * (2 if run.thorough() else 1)
@@ -318,6 +332,7 @@ def world(run, rng, idx, sizes, hello):
                     run.oracle_violation("honest client not served",
                                          {"what": "honest client not served", "world": idx, "sent_at_step": st, "payload": p[:30]}, "server.py")
         run.count("worlds")
+        run.count("worlds behind " + front)
         run.count("hostile datagrams", sum(len(b) for b in w.batches))
         run.count("echoes", echoes)
         for f in facts:
@@ -331,6 +346,165 @@ def world(run, rng, idx, sizes, hello):
     finally:
         w.close()
 
+
+
+# ------------------------------------------------------------------ peers that hold a session key but never complete the handshake
+
+HALFOPEN_KINDS = ["wrong-token", "token-zero", "token-of-another", "garbage-challenge", "app-typed-challenge", "keepalive-typed-challenge",
+                  "disconnect-in-challenge", "silent-after-hello"]
+
+
+def halfopen_world(run, rng, idx, front):
+    """hostile peers that do the key exchange HONESTLY (real UdpClient, real ECDH: they hold the session key of their
+    temporary slot) and then answer the challenge wrongly — and keep answering wrongly once every 0.3..1.9 s so that the
+    slot stays alive — for many seconds of virtual time, next to an honest echo client.  Oracle, per address that never
+    got a connect event: bytes out <= bytes in at every tick, and at most one datagram out per client hello in."""
+    from harness import srvx as X
+    from mpgameserver.connection import HandshakeClientChallengeResponseMessage
+    policy = V.random_policy(rng, p_raise=0.0, echo=1.0, chatty=False)
+    cfg = (5 * T, 2 * T, 1536, T)
+    w = X.WorldX(run, rng, cfg=cfg, blocklist=BLOCKED, policy=policy, full=True, front=front)
+    sim = w.sim
+    honest = w.add_client(("10.1.0.1", 5000))
+    sent = []
+    hostiles = []
+    inb, outb, dg_out, hellos_in, connected_once, talkers = {}, {}, {}, {}, set(), set()
+    died_at = None
+    nsteps = 110 * (2 if run.thorough() else 1)
+
+    def token_payload(tok):
+        m = HandshakeClientChallengeResponseMessage()
+        m.token = tok
+        return m.dumpb()
+
+    def wrong(rec):
+        """the next datagram of this hostile peer: sealed under ITS session key, typed CHALLENGE_RESP, fresh sequence numbers"""
+        rec["n"] += 1
+        n = rec["n"]
+        kind = rec["kind"]
+        slot = sim.ctxt.temp_connections.get(rec["addr"])
+        real = int(slot.token) if slot is not None else 0x40000001
+
+        def ed(h, msgs):
+            h = list(h)
+            h[2] = (h[2] + n - 1) % 65535 + 1 if n > 1 else h[2]
+            ms = (msgs[0][0] + n - 2) % 65535 + 1 if n > 1 else msgs[0][0]
+            if kind == "wrong-token":
+                body = [[ms, 3, token_payload(real ^ rng.choice([1, 0x100, 0x20000000]))]]
+            elif kind == "token-zero":
+                body = [[ms, 3, token_payload(0)]]
+            elif kind == "token-of-another":
+                others = [int(c.token) for p_ in (sim.ctxt.connections, sim.ctxt.temp_connections) for c in p_.values() if c.addr != rec["addr"] and c.token]
+                body = [[ms, 3, token_payload(rng.choice(others) if others else 0x40000002)]]
+            elif kind == "garbage-challenge":
+                body = [[ms, 3, bytes(rng.randrange(256) for _ in range(rng.choice([0, 1, 4, 9])))]]
+            elif kind == "app-typed-challenge":
+                h[4] = 3
+                body = [[ms, 6, b"app message in a datagram typed CHALLENGE_RESP"]]
+            elif kind == "keepalive-typed-challenge":
+                h[4] = 3
+                body = [[ms, 4, b""]]
+            else:
+                body = [[ms, 3, token_payload(real ^ 1)], [ms % 65535 + 1, 5, b""]]
+            if len(body) == 1:
+                h[4] = 3 if kind not in ("app-typed-challenge", "keepalive-typed-challenge") else h[4]
+            return h, body
+        if kind in ("app-typed-challenge", "keepalive-typed-challenge"):
+            # count 1: the header type IS the message type; a CHALLENGE_RESP-typed header is what passes the pool gate,
+            # so these two send two messages (count 2: per-message types)
+            def ed2(h, msgs, ed=ed):
+                h, body = ed(h, msgs)
+                return h, body + [[body[0][0] % 65535 + 1, body[0][1], body[0][2]]]
+            return V.recraft(sim, rec["chal"], rec["kid"], ed2)
+        return V.recraft(sim, rec["chal"], rec["kid"], ed)
+
+    def edit(rec, d):
+        if len(d) >= 20 and d[12] == 3 and rec["chal"] is None:
+            rec["chal"], rec["kid"] = d, rec["hc"].key_id()
+            rec["ticking"] = False           # from here on the peer is scripted (the real client would go on as if connected)
+            rec["next"] = w.t + rng.choice([300, 1500, 4500, 15360, 27000])
+            if rec["kind"] == "silent-after-hello":
+                return None
+            return wrong(rec)
+        return d
+    try:
+        for st in range(nsteps):
+            extra = []
+            hc = honest["hc"]
+            if hc.status() == 2 and rng.random() < 0.4 and st < nsteps - 14:
+                p = b"h%d-%d-" % (idx, st) + bytes(rng.randrange(256) for _ in range(rng.choice([0, 3, 50])))
+                hc.client.send(p)
+                sent.append((st, p))
+            if st in (2, 5, 9, 30, 60) and len(hostiles) < 5:
+                a = ("10.9.%d.%d" % (idx % 200, len(hostiles) + 1), rng.choice([1, 53, 5000, 65535]))
+                rec = w.add_client(a)
+                rec.update({"kind": rng.choice(HALFOPEN_KINDS), "chal": None, "kid": -1, "n": 0, "next": None})
+                rec["edit"] = edit
+                hostiles.append(rec)
+            for rec in hostiles:
+                if rec["chal"] is not None and rec["kind"] != "silent-after-hello" and rec["next"] is not None and w.t >= rec["next"]:
+                    if rec["addr"] in sim.ctxt.temp_connections or rng.random() < 0.3:
+                        extra.append((rec["addr"], wrong(rec)))
+                    rec["next"] = w.t + rng.choice([4500, 15360, 23000, 29000])
+            n0 = len(sim.sends)
+            alive = w.step(rng.choice([1500, 1500, 1545, 3000]), extra)      # multiples of 15 ticks (the 1/1024 s grid)
+            for a, d in w.batches[-1]:
+                inb[a] = inb.get(a, 0) + len(d)
+                if len(d) >= 20 and d[12] == 1:
+                    hellos_in[a] = hellos_in.get(a, 0) + 1
+            for (k_, a, data) in sim.sends[n0:]:
+                outb[a] = outb.get(a, 0) + len(data)
+                dg_out[a] = dg_out.get(a, 0) + 1
+            for o in sim.log[sim.marks[-2] if len(sim.marks) > 1 else 0:]:
+                if o[0] == 0 and o[1][0] == 3:
+                    connected_once.add(V.va(o[1][2]))
+            for rec in hostiles:
+                a = rec["addr"]
+                if a in connected_once:
+                    continue
+                case = {"world": idx, "front": front, "step": st, "virtual_seconds": round((w.t - 100 * T) / T, 2), "addr": list(a),
+                        "peer": rec["kind"], "wrong_answers_sent": rec["n"], "bytes_out": outb.get(a, 0), "bytes_in": inb.get(a, 0),
+                        "datagrams_out": dg_out.get(a, 0), "hellos_in": hellos_in.get(a, 0)}
+                slot = sim.ctxt.temp_connections.get(a)
+                if slot is not None:
+                    case["slot_status"] = {1: "CONNECTING", 2: "CONNECTED", 3: "DISCONNECTING", 4: "DISCONNECTED", 5: "DROPPED"}.get(slot.status.value)
+                if outb.get(a, 0) > inb.get(a, 0):
+                    run.oracle_violation("amplification towards an unconnected address", dict(case, what="amplification"),
+                                         "server.py:send / connection.py")
+                    connected_once.add(a)
+                elif dg_out.get(a, 0) > hellos_in.get(a, 0) and a not in talkers:
+                    run.oracle_violation("more than one datagram per client hello towards an address that never completed the handshake",
+                                         dict(case, what="temp connection talks"), "connection.py:_build_packet_impl / _recvChallengeResponse")
+                    talkers.add(a)
+            if not alive:
+                died_at = st
+                run.oracle_violation("server loop died", {"what": "server loop died", "world": idx, "front": front, "step": st,
+                                                          "exception": repr(sim.thread_exc)[:200]}, "server.py:UdpServerThread.run")
+                break
+        w.finish()
+        diff = sim.check_model()
+        got = set(honest["hc"].got)
+        echoes = 0
+        for st, p in sent:
+            if b"echo:" + p[:600] in got:
+                echoes += 1
+            elif died_at is None:
+                run.oracle_violation("honest client not served", {"what": "honest client not served", "world": idx, "front": front,
+                                                                  "sent_at_step": st, "payload": p[:30]}, "server.py")
+        if sim.internal:
+            raise RuntimeError("harness-internal problem: %s" % sim.internal[:3])
+        run.count("halfopen worlds")
+        run.count("halfopen wrong answers", sum(r["n"] for r in hostiles))
+        run.count("halfopen echoes", echoes)
+        for r in hostiles:
+            run.count("halfopen peer " + r["kind"])
+            if r["addr"] in connected_once and not (outb.get(r["addr"], 0) > inb.get(r["addr"], 0)):
+                pass
+        if echoes >= 5 and sum(r["n"] for r in hostiles) >= 5:
+            run.nt(("halfopen", idx, front, tuple(r["kind"] for r in hostiles)))
+        return ["halfopen world %d" % idx, front, len(sim.steps)], [0] if diff is None else [1, diff]
+    finally:
+        w.close()
 
 def run(run):
     run.rules.append(RULE)
@@ -350,6 +524,13 @@ def run(run):
     cases, impl, model = [], [], []
     for i in range(n):
         c, d = world(run, run.rng, i, sizes, hello)
+        cases.append(c)
+        impl.append([0])
+        model.append(d)
+    from harness import srvx as X
+    run.rules.append(HALFOPEN_RULE)
+    for i in range(120 if run.thorough() else 8):
+        c, d = halfopen_world(run, run.rng, i, X.FRONTS[i % len(X.FRONTS)])
         cases.append(c)
         impl.append([0])
         model.append(d)
